@@ -138,6 +138,7 @@ RSTRIP_EOL = fun("bytes_rstrip_crlf", S, S)            # b.rstrip(b"\r\n")
 B64D = fun("base64_b64decode", S, S)
 REPLACE_ALL = fun("str_replace_all", S, S, S, S)       # x.replace(old, new)
 LOWER = z3.Function("str_lower", S, S)                 # same symbol as contracts/C07.py
+LSTRIP = z3.Function("str_lstrip", S, S)               # str.lstrip() (uninterpreted)
 
 # re: match list of a compiled pattern over data
 PatS = ext_sort("RePattern")
@@ -1866,6 +1867,10 @@ def install(reg):
 
     def m_re_compile(ex, st, args, kwargs, node):
         pat = args[0].const() if args and isinstance(args[0], VStr) else None
+        if pat is not None and len(args) == 2 and not kwargs and isinstance(node, ast.Call) and len(node.args) == 2 \
+                and ast.unparse(node.args[1]) in ("re.IGNORECASE", "re.I"):
+            # (round 7) re.compile(p, re.IGNORECASE) IS re.compile("(?i)" + p): the flag is written into the pattern constant
+            return [(st, VExt("RePattern", RePat(z3.StringVal("(?i)" + pat))))]
         if pat is None or len(args) > 1:
             raise Unsupported(f"{ex.loc(node)} re.compile of a non-constant str pattern / with flags")
         return [(st, VExt("RePattern", RePat(z3.StringVal(pat))))]
@@ -1890,6 +1895,21 @@ def install(reg):
         return [(st, VStr(sub_term(pat, args[1], args[2].t)))]
 
     reg.ext_models["re.compile"] = m_re_compile
+
+    # (round 7) str.lower() / str.lstrip() of a symbolic str: uninterpreted FUNCTIONS of the string (the engine's default is a fresh
+    # unconstrained string per call, which is the same over-approximation without determinism): ASSUMED total
+    def m_lower(ex, st, args, kwargs, node):
+        if len(args) != 1 or kwargs or not isinstance(args[0], VStr):
+            raise Unsupported(f"{ex.loc(node)} str.lower with arguments")
+        return [(st, VStr(LOWER(args[0].t)))]
+
+    def m_lstrip(ex, st, args, kwargs, node):
+        if len(args) != 1 or kwargs or not isinstance(args[0], VStr):
+            raise Unsupported(f"{ex.loc(node)} str.lstrip with arguments")
+        return [(st, VStr(LSTRIP(args[0].t)))]
+
+    reg.ext_models.setdefault("str.lower", m_lower)
+    reg.ext_models.setdefault("str.lstrip", m_lstrip)
     reg.ext_models["re.sub"] = m_re_sub
     reg.method_models[("RePattern", "sub")] = m_pat_sub
 
